@@ -520,6 +520,42 @@ func ruleCanonicalize(c *Ctx) {
 		c.undecided("codec.Meta.Canonicalize", "anchor", "-", "not found")
 		return
 	}
+	// header names that differ only in letter case fold into one canonical name, and their values accumulate
+	// (two Set-Cookie spellings are two cookies): a value stored under a canonicalised key is appended to what
+	// is already there
+	if cf := p.SSA.FuncValue(canon); cf != nil {
+		n := 0
+		for _, g := range p.withHelpers(cf) {
+			for _, in := range instrsOf(g) {
+				mu, ok := in.(*ssa.MapUpdate)
+				if !ok {
+					continue
+				}
+				kc, isCall := mu.Key.(*ssa.Call)
+				if !isCall {
+					continue
+				}
+				if f := calleeFunc(&kc.Call); f == nil || f.Name() != "CanonicalMIMEHeaderKey" {
+					continue
+				}
+				n++
+				c.inst(1)
+				acc := false
+				if ap, isA := mu.Value.(*ssa.Call); isA {
+					if b, isB := ap.Call.Value.(*ssa.Builtin); isB && b.Name() == "append" && len(ap.Call.Args) > 0 {
+						if lk, isL := ap.Call.Args[0].(*ssa.Lookup); isL && lk.X == mu.Map && lk.Index == mu.Key {
+							acc = true
+						}
+					}
+				}
+				c.check(acc, fnName(g), "values of header names that fold to the same canonical name accumulate", p.InstrPos(mu), "h[canonical] = append(h[canonical], v...)", "a value is stored under the canonical name without keeping what is already there: of two spellings of one header (Set-Cookie / set-cookie) only one survives, and which one depends on map iteration order")
+			}
+		}
+		if n == 0 {
+			c.inst(1)
+			c.viol(fnName(cf), "values of header names that fold to the same canonical name accumulate", p.Pos(cf.Pos()), "no store under a canonicalised header name found")
+		}
+	}
 	for _, fn := range p.Repo {
 		if fn.Pkg == nil || fn.Pkg.Pkg.Name() != "codec" || fn.Parent() != nil {
 			continue
